@@ -27,6 +27,11 @@ StrClasses == {"plain", "markup", "control", "nonascii", "empty"}
 \* flag values that denote no usable duration: zero, a positive value below the clock's resolution (it would round to zero),
 \* a negative number, text
 TimeoutErrors == {"zero_timeout", "tiny_read_timeout", "tiny_write_timeout", "tiny_connect_timeout", "negative_timeout", "text_timeout"}
+\* texts that denote no representable duration whatever number syntax a flag accepts: not-a-number, the infinities, values above
+\* the largest duration (2^64 s) in plain, exponent and long-digit spelling; given to each of the three timeout flags
+UnrepresentableTexts == {"nan", "NaN", "inf", "-inf", "+inf", "infinity", "1e20", "1e400", "18446744073709551616",
+                         "99999999999999999999999999", "-1e400"}
+TimeoutFlags == {"--read-timeout", "--write-timeout", "--connect-timeout"}
 Errors == {"unknown_game", "unresolvable_host", "unreachable_server", "bad_port", "bad_format", "bad_retries", "missing_ip"} \cup TimeoutErrors
 
 \* size: "large" = a reply with more than a hundred players (documents of tens of kilobytes: output that is produced in
@@ -35,11 +40,12 @@ Sizes == {"small", "large"}
 Good == {g \in [kind : {"good"}, fam : Families, mode : Modes, fmt : Formats, str : StrClasses, size : Sizes] :
            g.size = "large" => g.fam = "quake3"}
 Bad == [kind : {"bad"}, err : Errors, fmt : {"json", "xml"}]
+       \cup [kind : {"bad"}, err : {"unrepresentable_timeout"}, fmt : {"json"}, flag : TimeoutFlags, text : UnrepresentableTexts]
 
 Init == c \in Good \cup Bad /\ stage = "args" /\ exit = 0
 
 \* the stage at which a bad invocation stops
-FailsAt(x) == CASE x.err \in {"bad_port", "bad_format", "bad_retries", "missing_ip"} \cup TimeoutErrors -> "args"
+FailsAt(x) == CASE x.err \in {"bad_port", "bad_format", "bad_retries", "missing_ip", "unrepresentable_timeout"} \cup TimeoutErrors -> "args"
                 [] x.err = "unknown_game" -> "find"
                 [] x.err = "unresolvable_host" -> "resolve"
                 [] x.err = "unreachable_server" -> "query"
